@@ -10,7 +10,8 @@ RULE = ("explicit-state search on the real code: abstract state = (kind, slot pa
         "documentation, resamplekey(true/false), adjust_nondelegable between permitted lists; in every successor state the invariant is evaluated: exact "
         "ascending free-slot list, no write beyond the l-len(attrs) slots the Go binding allocates, pairing equations for a0/a1/every b_i/bsig, decryption of "
         "ciphertexts for the accumulated pattern by the key and the master key, flag propagation, re-randomisation. quick: l=2, values {v1,v2}; thorough: l=3 "
-        "and special values {0, r+v1, 2^256-1}. non-trivial = transition whose list is non-empty")
+        "and special values {0, r+v1, 2^256-1}; the slot count l itself takes boundary values (9, 33, 65; thorough: every 2^k and its neighbours up to 257) with "
+        "a fixed set of histories that touch the lowest, highest and word-boundary slots. non-trivial = transition whose list is non-empty")
 ASSUMPTIONS = ["the pairing used inside the invariant is the library's (decided by C01)", "dedup by abstract state is sound because control flow in the scheme "
                "code depends only on indices and flags; guarded by replaying up to 3 different witness histories per state in the thorough tier",
                "value 0 (mod r) in a key slot is identified with 'hidden' (h^0 contributes nothing and no b element is kept)"]
@@ -148,6 +149,9 @@ def shards(ctx):
     for cfg in ("c64", "c32"):
         out.append({"cfg": cfg, "sig": True, "state": None, "history": []})
     ctx.extra["abstract_states"] = len(reach) + 1
+    # the slot count is an operand too: boundary values of l (a bit mask or a narrow counter over slots would break here)
+    for l in ((9, 33, 65) if ctx.tier == "quick" else (9, 16, 17, 31, 32, 33, 63, 64, 65, 100, 255, 256, 257)):
+        out.append({"sub": "large-l", "cfg": "asm", "sig": l % 2 == 1, "l": l})
     if ctx.tier == "thorough":
         # "start from non-initial states": EVERY history of length 1 and 2 over the l=2 alphabet is a source state of its own (no
         # deduplication by abstract state), so a key that reaches the same pattern along another route is explored from as well
@@ -172,7 +176,47 @@ def shards(ctx):
     return out
 
 
+def large_l_histories(l):
+    """a handful of delegation histories that touch the lowest, the highest and the word-boundary slots of a large parameter set"""
+    hi = [i for i in (l - 1, l - 2, 31, 32, 33, 63, 64, 65, 7, 8) if 0 <= i < l]
+    top, top2 = l - 1, l - 2
+    L1 = {"e": sorted([[0, "v1"], [top, "v2"]]), "omit": False}
+    L2 = {"e": sorted([[0, "v1"], [top2, wk.HID], [top, "v2"]]), "omit": False}
+    L3 = {"e": sorted([[0, "v1"], [top2, "v1"], [top, "v2"]]), "omit": False}
+    L4 = {"e": sorted([[i, "v1"] for i in sorted(set(hi))]), "omit": False}
+    L5 = {"e": sorted([[0, "v1"], [top, "v2"]]), "omit": True}
+    return [
+        [["keygen", L1]], [["keygen", L1], ["qualify", L3]], [["keygen", L1], ["ndqualify", L2]], [["ndkeygen", L4]], [["keygen", L4]],
+        [["keygen", L1], ["qualify", L1], ["resample", True]], [["keygen", L1], ["ndqualify", L5]], [["keygen", {"e": [], "omit": False}], ["qualify", L4]],
+        [["keygen", L1], ["adjust", L1, L3]], [["keygen", L1], ["adjust", L3, L2]], [["keygen", {"e": [], "omit": False}], ["adjust", L4, L1]],
+    ]
+
+
+def eval_large_l(case):
+    W = world(case["cfg"], case["l"], case["sig"], case["seed"])
+    hist = case["history"]
+    key, state = W.replay(hist[:-1])
+    op = hist[-1]
+    nxt = wk.model_step(state, op, W.l, W.vals)
+    if nxt is None:
+        return ["MODEL: history not permitted: %s" % (op,)]
+    op2 = list(op)
+    if op[0] == "resample":
+        op2 = ["resample", op[1], state[1]]
+    new = W.apply(key, op2)
+    return W.invariant(new, nxt[1])
+
+
 def run_shard(ctx, shard):
+    if shard.get("sub") == "large-l":
+        for h in large_l_histories(shard["l"]):
+            case = {"sub": "large-l", "cfg": shard["cfg"], "l": shard["l"], "sig": shard["sig"], "seed": ctx.seed, "history": h}
+            msgs = eval_large_l(case)
+            ctx.ok(True, "large-l")
+            ctx.extra["transitions"] += 1
+            if msgs:
+                ctx.fail(case, "l=%d, history %s: %s" % (shard["l"], [o[0] for o in h], "; ".join(msgs[:3])), sig="large-l:" + h[-1][0])
+        return
     U = universe(ctx)
     if "l" in shard:
         U = dict(U, l=shard["l"])
@@ -203,6 +247,8 @@ def run_shard(ctx, shard):
 
 
 def replay(ctx, case):
+    if case.get("sub") == "large-l":
+        return eval_large_l(case)
     return eval_case(case)
 
 
